@@ -2100,6 +2100,8 @@ def main(argv):
     h = hashlib.sha1()
     for r in sorted(tr.translated, key=lambda r: (r["lines"][0], r["definition"])):
         h.update((r["definition"] + ":" + r["sha1"] + "\n").encode())
+        for i in r.get("inlined_helpers", []):
+            h.update((r["definition"] + "<-" + i["helper"] + ":" + i["sha1"] + "\n").encode())
     info = {**base, "ok": not failures, "translated_text_sha1": h.hexdigest(),
             "generated_sha1": hashlib.sha1(gen.encode()).hexdigest(), "methods": tr.translated, "failures": failures,
             "fixed_blocks": [n[1:] for n, _ in tr.defs if n.startswith("@")],
